@@ -6,7 +6,14 @@ import common as C
 from common import Failure, q, z, coq_list, coq_opt, coq_bool
 
 ID = "C20"
-GEN = ["gen_jets"]
+GEN = ["gen_jets", "gen_jets_rest"]
+EXTRA_PROPERTY_FILES = ["C20Rest"]     # getters + the jet_algorithm dispatch (genkt/ee_genkt, unsupported values) regenerated and proved
+SOURCE_TIE_NOTE = ("gen_jets_rest (Properties/C20Rest.v, 12 theorems, runtime Model/JetsRestRt.v): get_jets / "
+    "get_associated_particles regenerated and proved equal to Model/Jets.v (TypeError before a read, IndexError on an empty group), "
+    "read-then-getters and write/read/getters round trip; perform_jet_finding re-translated with the algorithm as a Python value and "
+    "FastJetError as its own class: closed form of the dispatch (3/53 -> JetDefinition(n,R,-1.0); 0,1,2,11 -> JetDefinition(n,R); other "
+    "int -> FastJetError after the file was truncated; non-int -> TypeError), equal to the model translation on the model algorithms; "
+    "fj.plugin_algorithm (99: the interpreter segfaults) excluded by hypothesis; o_clusterx is a section variable (fastjet oracle)")
 MODEL_INDEPENDENT_OF_PROOFS = True   # Model/Jets*.v contain no proofs: the correspondence runs even when a proof breaks
 ALLOWED_AXIOMS = []
 TRUSTED = [
@@ -20,9 +27,9 @@ TRUSTED = [
     "hand model coq/Model/Jets.v: PROVED EQUAL (C20_source_*) to the method bodies regenerated from the current "
     "JetAnalysis.py - __init__, __initialize_and_check_parameters, create_fastjet_PseudoJets, fill_associated_particles, "
     "jet_hole_subtraction, write_jet_output, perform_jet_finding (model algorithms antikt/kt/cambridge), read_jet_data and "
-    "the keyword defaults; additionally run against the real code by this run's correspondence. NOT tied by a theorem: "
-    "get_jets / get_associated_particles (correspondence + oracle only), the generalised-kt branch of perform_jet_finding "
-    "(translated, but no oracle for it), the object's attributes after a call that raised",
+    "the keyword defaults; additionally run against the real code by this run's correspondence. get_jets / get_associated_particles and the "
+    "generalised-kt / unsupported-algorithm dispatch are tied by Properties/C20Rest.v. NOT tied by a theorem: the object's attributes "
+    "after a call that raised",
     "fastjet (oracles, section variables): cluster = ClusterSequence(event, JetDefinition(alg, R)).inclusive_jets(0) sorted "
     "by pT; PseudoJet.perp()/eta()/phi(); delta_phi_to; np.sqrt - the model's dR is proved to be instantiated with the "
     "source's formula sqrt((eta_p - eta_jet)**2 + delta_phi_to**2); the harness calls fastjet itself for these",
